@@ -10,6 +10,8 @@ void runEpisode(const nlohmann::json& ep)
         runDec(ep);
     else if (comp == "obj")
         runObj(ep);
+    else if (comp == "st")
+        runSt(ep);
     else
     {
         Out o;
